@@ -46,6 +46,42 @@ def anchor_files(prop, root):
     return sorted(set(files))
 
 
+def focus_ranges(run, root):
+    """{relpath: [(lo, hi, qualname)]}: line ranges of the functions / classes in which the property's rule instances and
+    anchors lie (construct keys are relpath::qualname::what).  Edits there are the ones the rules claim to watch."""
+    import ast
+    wanted = {}
+    for inst in run.instances:
+        parts = inst.construct.split("::")
+        if len(parts) >= 2 and parts[0].endswith(".py"):
+            wanted.setdefault(parts[0], set()).add(parts[1])
+    out = {}
+    for rel, names in wanted.items():
+        try:
+            with open(os.path.join(root, rel)) as f:
+                tree = ast.parse(f.read())
+        except (OSError, SyntaxError):
+            continue
+        ranges = []
+
+        def walk(node, prefix):
+            for ch in ast.iter_child_nodes(node):
+                if isinstance(ch, (ast.FunctionDef, ast.AsyncFunctionDef, ast.ClassDef)):
+                    q = prefix + ch.name
+                    if q in names or ch.name in names:
+                        ranges.append((ch.lineno, ch.end_lineno, q))
+                    walk(ch, q + ".")
+                elif isinstance(ch, ast.Assign) and prefix == "" and any(
+                        isinstance(t, ast.Name) and t.id in names for t in ch.targets):
+                    ranges.append((ch.lineno, ch.end_lineno, ch.targets[0].id))
+        walk(tree, "")
+        if "<module>" in names:
+            ranges.append((1, 10 ** 9, "<module>"))
+        if ranges:
+            out[rel] = ranges
+    return out
+
+
 def _work(task):
     prop, root, relpath, opname, index, desc = task
     import sys
@@ -76,20 +112,46 @@ def run_thorough(prop, ctx):
     run = ctx.run
     t0 = time.time()
     root = ctx.root
-    files = anchor_files(prop, root)
+    focus = focus_ranges(run, root)
+    files = sorted(set(anchor_files(prop, root)) | set(focus))
     sites = []
+    focused = []
     for rel in files:
         try:
             with open(os.path.join(root, rel)) as f:
                 src = f.read()
             for opname, idx, desc, line in mutate.enumerate_sites(src):
-                sites.append((rel, opname, idx, desc))
+                rec = (rel, opname, idx, desc)
+                if any(lo <= line <= hi for lo, hi, _q in focus.get(rel, []) if hi < 10 ** 9):
+                    focused.append(rec)
+                else:
+                    sites.append(rec)
         except (OSError, SyntaxError):
             continue
-    total_sites = len(sites)
+    total_sites = len(sites) + len(focused)
     rnd = random.Random(int(ctx.seed) * 7919 + sum(ord(c) for c in prop))
     budget = DEFAULT_BUDGET
-    if len(sites) > budget:
+    # the focused sites (inside the functions / tables the rules are anchored in) come first -- all of them when the budget
+    # allows; the remainder of the budget samples the rest of the anchor files
+    focus_set = set(focused)
+    if len(focused) > budget:
+        # small, specific functions first and completely (iterpath, validate, a cleaner); the big shared ones
+        # (_STIXBase.__init__, class tables) are sampled with what is left of the budget
+        by_fn = {}
+        for s_ in focused:
+            fn = s_[3].split(":")[0]
+            by_fn.setdefault((s_[0], fn), []).append(s_)
+        pick = []
+        for k_, lst in sorted(by_fn.items(), key=lambda kv: (len(kv[1]), kv[0])):
+            rnd.shuffle(lst)
+            room = budget - len(pick)
+            if room <= 0:
+                break
+            pick += lst[:max(6, room if len(lst) <= room else room // 3)]
+        focused = pick[:budget]
+    budget_rest = max(budget // 4, budget - len(focused))
+    if len(sites) > budget_rest:
+        budget = budget_rest
         # stratified by operator so rare operators are not drowned by string/int perturbations
         by_op = {}
         for s in sites:
@@ -104,6 +166,7 @@ def run_thorough(prop, ctx):
         rnd.shuffle(rest)
         sample += rest[:max(0, budget - len(sample))]
         sites = sample[:budget]
+    sites = focused + sites
     tasks = [(prop, root, rel, op, idx, desc) for rel, op, idx, desc in sites]
     workers = min(16, os.cpu_count() or 4)
     results = []
@@ -129,6 +192,17 @@ def run_thorough(prop, ctx):
         if outcome == "checker-crash":
             crashes.append("%s [%s] %s: %s" % (rel, op, desc, rules))
     survivors.sort()
+    fk = fs = fa = 0
+    fsurv = []
+    for rel, op, idx, desc, outcome, rules in results:
+        if (rel, op, idx, desc) in focus_set:
+            if outcome == "killed":
+                fk += 1
+            elif outcome == "analysis-error":
+                fa += 1
+            elif outcome == "survived":
+                fs += 1
+                fsurv.append("%s [%s] %s" % (rel, op, desc))
     applied = counts["killed"] + counts["survived"] + counts["analysis-error"]
     run.extra["mutation"] = {
         "anchor_files": files,
@@ -139,6 +213,11 @@ def run_thorough(prop, ctx):
         "survived": counts["survived"],
         "not_applicable": counts["not-applicable"],
         "kill_ratio": round((counts["killed"] + counts["analysis-error"]) / applied, 3) if applied else None,
+        "focused": {"what": "edits inside the functions / tables in which the property's rule instances lie",
+                    "functions": sum(len(v) for v in focus.values()), "mutants": fk + fa + fs, "killed": fk,
+                    "detected_as_analysis_error": fa, "survived": fs,
+                    "kill_ratio": round((fk + fa) / (fk + fa + fs), 3) if (fk + fa + fs) else None,
+                    "survivor_samples": sorted(fsurv)[:80]},
         "by_operator": by_op,
         "killing_rules": dict(sorted(by_rule.items(), key=lambda kv: -kv[1])),
         "survivor_samples": survivors[:60],
@@ -152,3 +231,5 @@ def run_thorough(prop, ctx):
     if not run.quiet:
         print("   thorough: %d sites, %d mutants applied: %d killed, %d analysis-error, %d survived (%.1fs)" % (
             total_sites, applied, counts["killed"], counts["analysis-error"], counts["survived"], time.time() - t0))
+        print("   thorough, focused on the %d anchored functions/tables: %d mutants: %d killed, %d analysis-error, %d survived" % (
+            sum(len(v) for v in focus.values()), fk + fa + fs, fk, fa, fs))
